@@ -59,6 +59,18 @@ PROPS = {
                                                                 "row limits of {get del} are not modelled; the gRPC codec carries neither get.del options nor integer ctrl params, those are checked on long-polling clients only"]),
 }
 
+PROPS["C13"] = A("TestSim_C13",
+    "one evaluation = one simulated run: a small population with a bystander session, plus 1-2 hostile clients (long-polling JSON for byte-level input, gRPC for "
+    "structured protobuf input) that are logged in / handshake only / nothing / root, sending 3-25 generated inputs: raw byte strings and JSON fragments, marshalled messages "
+    "truncated / bit-flipped / spliced / doubled, and structurally valid messages of all ten kinds (and multi-part and empty ones) whose topic names, user ids, modes, "
+    "schemes, versions, seq numbers, ranges, get/set options, tags, credentials, Drafty content with out-of-range spans, heads (webrtc/replace/mime of wrong type), "
+    "attachments and extra.obo take boundary values, interleaved with the bystander's {get me}. Oracle: no task of the server ends in a panic (process death), every request "
+    "with an id that is not a note is answered (anonymous dispatch-level refusals are matched to the request they answer), the bystander keeps being answered, requests sent before "
+    "handshake/login are refused. Non-trivial = a run in which a hostile input got past dispatch into a topic or hub handler (a topic or subscription was loaded from the store); "
+    "distinct = distinct (program hash, schedule hash).",
+    probes=[], assumptions=COMMON_ASSUME + ["websocket transport not simulated: byte-level inputs travel through the long-polling handler (same dispatchRaw)",
+                                            "push preview rendering (fcm/tnpg payload preparation from message content) is stubbed: simpush records receipts without rendering previews"])
+
 NOT_APPLICABLE = {
     "C20": "pure functions of one input (id codecs, name spellings, JSON<->protobuf converters): no schedule, clock, fault, crash point or second party for a simulator to decide; see DESIGN.md section 6",
 }
